@@ -331,6 +331,23 @@ class ProgGen:
         if k < 70:
             return ("assert", self.gen(BOOL, env, d - 1), ("str", "msg") if r.chance(0.5) else None,
                     self.gen(ty, env, d - 1))
+        if k < 74 and ty == NUM:
+            # one array reached through several routes: comprehension / concatenation / slice views
+            # created before or after direct element reads
+            a, c, x = self.fresh("a"), self.fresh("c"), self.fresh("x")
+            elems = [self.gen(NUM, env, d - 1) for _ in range(2 + r.below(2))]
+            mk = r.below(4)
+            view = [("comp", ("bin", "+", ("var", x), ("num", 1)), [("for", x, ("var", a))]),
+                    ("bin", "+", ("var", a), ("arr", [("num", 7)])),
+                    ("slice", ("var", a), ("num", 0), None, None),
+                    ("comp", ("var", x), [("for", x, ("bin", "+", ("arr", [("num", 0)]), ("var", a)))])][mk]
+            uses = [("len", ("var", c)), ("index", ("var", a), ("num", 0)), ("index", ("var", a), ("num", 1)),
+                    ("index", ("var", c), ("num", 1)), ("index", ("var", c), ("num", 0))]
+            r.shuffle(uses)
+            body = uses[0]
+            for u in uses[1:1 + 1 + r.below(3)]:
+                body = ("bin", "+", body, u)
+            return ("local", [(a, ("arr", elems)), (c, view)], body)
         if k < 78:
             # element of a comprehension
             x = self.fresh("x")
@@ -595,7 +612,43 @@ class ProgGen:
         self.note(f"obj{layers}")
         return e
 
+    def gen_mixin_reuse(self, env, d):
+        """the same object literal (with object-level locals and super references) mixed in several
+        times into one chain: each copy must see its own super"""
+        r = self.rng
+        m, ln = self.fresh("m"), self.fresh("l")
+        base = ("obj", [], [], [(("str", "a"), r.choice([":", "::", ":::"]), False, self.gen(NUM, env, max(d - 1, 0))),
+                                (("str", "b"), ":", False, ("num", r.choice([0, 1, 5])))])
+        how = r.below(4)
+        if how == 0:
+            fa = (("str", "a"), ":", False, ("bin", "+", ("superidx", ("str", "a")), ("var", ln)))
+        elif how == 1:
+            fa = (("str", "a"), ":", True, ("var", ln))
+        elif how == 2:
+            fa = (("str", "a"), ":", False, ("bin", "+", ("bin", "*", ("superidx", ("str", "a")), ("num", 2)), ("var", ln)))
+        else:
+            fa = (("str", "a"), ":", False, ("if", ("insuper", ("str", "a")),
+                                            ("bin", "+", ("superidx", ("str", "a")), ("var", ln)), ("num", 100)))
+        locals_ = [(ln, self.gen(NUM, env, 0))] if r.chance(0.8) else []
+        if not locals_:
+            fa = (fa[0], fa[1], fa[2], ("bin", "+", ("superidx", ("str", "a")), ("num", 1))) if how != 1 else \
+                 (fa[0], fa[1], True, ("num", 1))
+        fields = [fa]
+        if r.chance(0.4):
+            fields.append((("str", "b"), ":", False, ("bin", "+", ("superidx", ("str", "b")), ("index", ("self",), ("str", "a")))))
+        mixin = ("obj", locals_, [], fields)
+        chain = base
+        for _ in range(2 + r.below(2)):
+            if r.chance(0.25):
+                chain = ("bin", "+", chain, ("obj", [], [], [(("str", "c"), ":", False, ("str", "x"))]))
+            chain = ("bin", "+", chain, ("var", m))
+        self.note("mixin_reuse")
+        read = ("index", chain, ("str", r.choice(["a", "a", "b"])))
+        return ("local", [(m, mixin)], read)
+
     def gen_objread(self, ty, env, d):
+        if ty == NUM and self.rng.chance(0.25):
+            return self.gen_mixin_reuse(env, d)
         nm = self.rng.choice(["a", "b"]) if ty == NUM else "c"
         o = self.gen_obj(env, d - 1, want=(nm, ty))
         if self.rng.chance(0.3):
